@@ -20,6 +20,7 @@ RULE = ("(i) synthetic registries whose entries take runtime arguments through t
         "type_name::<T>() and the const N it was instantiated with, the args expression bumps a counter that must read 1. "
         "Non-trivial = at least one argument row executed; distinct by input line.")
 ASSUMPTIONS = [
+    "type labels: the model follows the repaired EntryType::display_name (F13: strip leading `ident::` components only); bytes >= 128 count as identifier bytes",
     "pointers into the names slice are indices in the model; slice_ptr_index and the unchecked cast behind the TypeId check are exercised, not modelled",
     "as for C14: filter = predicate on the display path, sort = any permutation of siblings and argument names; thread counts only at run-time level (--threads / Divan::threads, sorted, distinct, non-zero); entry-level `threads` absent or empty",
     "the flat semantics used as specification presupposes no module / generic-function name clash (finding F8)",
@@ -111,6 +112,9 @@ def args_tour(crate):
                 vals = ["s%d" % ((i * 7) % 31) if i % 3 else P.STRV[i % len(P.STRV)] for i in range(ln)]
             items.append(F("k%d_%s" % (n, kind), args=(kind, vals), bencher=(n % 2 == 0)))
     items.append(F("gen_args", types=[0, 1, 6], args=("vec_i", [3, 1, 2]), bencher=True))
+    # type syntax other than a path: &String and String must not share a label, tuples / arrays / fn pointers keep their shape
+    items.append(F("nonpath_types", types=[10, 1, 3, 11, 12, 13, 14, 15, 16, 17, 18, 19]))
+    items.append(F("nonpath_types_cs", types=[10, 1, 11, 14], consts=("L", "i", [1, 2]), args=("arr_i", [5])))
     items.append(F("gen_cs_args", consts=("L", "i", [5, 50]), args=("arr_str", ["p", "q", "r"])))
     # inline const literals written with separators / radix prefixes / leading zeros / suffixes: the row label is the value's rendering
     items.append(F("gen_cs_spell", consts=("L", "i", [1000, 512, 16, 15, 7, 5], ["1_000", "0x200", "0b1_0000", "0o17", "007", "5i64"]),
@@ -193,7 +197,9 @@ MANIFEST = {
             "under a path ending in '::' + to_string(received value) (C17_label_value); the received value is value number i of the "
             "argument list of the entry whose function ran (C17_received_value); the executed multiset is exactly the selected subset of "
             "the registered cases (C17_selected_subset); every BenchArgs static is initialised once and found initialised by every runner "
-            "(C17_once) and all generic instantiations of a function share one list (C17_once_shared). Correspondence: synthetic registries "
+            "(C17_once) and all generic instantiations of a function share one list (C17_once_shared); the type label names the type for "
+            "every type name (label and type_name agree once ident:: qualifiers are deleted: C17_label_names_type, C17_labels_distinguish; the "
+            "pre-repair label function fails on &a::S: C17_old_label_refuted, F13). Correspondence: synthetic registries "
             "through the BenchArgs API (12 containers, lengths 0..30, all sorts/reversals, strict-subset filters) and generated macro crates "
             "(13 argument expressions, types x consts x args; the body identifies itself by type_name::<T>() and N; evaluation counters).",
     "note": "Pointers into the names slice are indices in the model, so the proofs are short and the weight is on the correspondence. "
